@@ -339,6 +339,7 @@ def run(ctx):
     reader_drop_discipline(ctx, a, "C08.R7")
 
     res_funcs = {f.name for f in rmod.all_funcs if f.name in ("match_schemas", "match_types", "_match_reader_union", "read_record", "read_union", "read_enum", "read_data", "read_array", "read_map", "read_fixed") or f.name.startswith("skip_")}
+    ctx.borrow("C03", {"C03.R1": "C08.R11"}, "resolution reads every value the writer wrote and nothing else: the resolving arm of a reader (reader schema given) consumes exactly the writer's encoding, whatever it then keeps, converts or replaces by a default", only=lambda o: ":read_" in o.get("where", ""))
     ctx.borrow("C17", {"C17.R1": "C08.R10"}, "what a reader schema resolves to is a function of the writer and reader schemas alone: resolution code that stores into the caller's name tables (caches, indexes) makes the result depend on what was read before", only=lambda o: o["where"].split(":")[1].split(".")[0] in res_funcs if o.get("where", "").count(":") >= 1 else False)
 
 
